@@ -393,7 +393,8 @@ Definition hdr_facts (tcp v6 : bool) (tcph : N) (p : list N) : Prop :=
 Definition tcp_facts (tcp : bool) (pkt : list N) (x : item) : Prop :=
   tcp = true -> it_seq x = be32 pkt (it_iph x + 4) /\
                 (byte_at pkt (it_iph x + 13) = 16 \/ byte_at pkt (it_iph x + 13) = 24) /\
-                it_psh x = (byte_at pkt (it_iph x + 13) =? 24).
+                it_psh x = (byte_at pkt (it_iph x + 13) =? 24) /\
+                byte_at pkt (it_iph x + 12) mod 16 = 0.
 Definition fresh_item (tcp : bool) (pkt : list N) (pktI : N) (v6 : bool) (x : item) : Prop :=
   it_idx x = pktI /\ it_merged x = 0 /\ it_v6 x = v6 /\ it_iph x = (if v6 then 40 else 20) /\
   (if tcp then 20 <= it_tcph x else it_tcph x = 0) /\
@@ -460,6 +461,7 @@ Proof.
   destruct (len pkt <? iph) eqn:Hiph; [apply step_z_noop; exact Hk|].
   set (tcph := byte_at pkt (iph + 12) / 16 * 4).
   destruct ((tcph <? 20) || (60 <? tcph)) eqn:Ht; [apply step_z_noop; exact Hk|].
+  destruct (N.eqb_spec (byte_at pkt (iph + 12) mod 16) 0) as [Hnib|Hnib]; cbn [negb]; [|apply step_z_noop; exact Hk].
   destruct (len pkt <? iph + tcph) eqn:Hl; [apply step_z_noop; exact Hk|].
   destruct (frag_gate pkt v6) eqn:Hfr; cbn [negb]; [|apply step_z_noop; exact Hk].
   destruct (negb (byte_at pkt (iph + FLAGS_OFF) =? ACK) && negb (byte_at pkt (iph + FLAGS_OFF) =? ACK + PSH)) eqn:Hfl; [apply step_z_noop; exact Hk|].
@@ -482,8 +484,8 @@ Proof.
     assert (Htf : tcp_facts true pkt newit).
     { intros _. cbn [newit it_seq it_iph it_psh]. split; [reflexivity|].
       unfold FLAGS_OFF, tun_tcpFlagsOffset, ACK, PSH, tun_tcpFlagACK, tun_tcpFlagPSH in *.
-      destruct (N.eqb_spec (byte_at pkt (iph + 13)) 16) as [E|E]; [rewrite E; split; [auto|reflexivity]|].
-      destruct (N.eqb_spec (byte_at pkt (iph + 13)) (16 + 8)) as [E2|E2]; [|discriminate]. change (16 + 8) with 24 in E2. rewrite E2. split; [auto|reflexivity]. }
+      destruct (N.eqb_spec (byte_at pkt (iph + 13)) 16) as [E|E]; [rewrite E; split; [auto|split; [reflexivity|exact Hnib]]|].
+      destruct (N.eqb_spec (byte_at pkt (iph + 13)) (16 + 8)) as [E2|E2]; [|discriminate]. change (16 + 8) with 24 in E2. rewrite E2. split; [auto|split; [reflexivity|exact Hnib]]. }
     refine (conj _ (conj _ (conj _ (conj _ (conj _ (conj _ (conj _ (conj _ (conj _ (conj _ (conj _ _)))))))))));
       try reflexivity; try lia; try exact Hi; try exact Hhf; exact Htf. }
   destruct (tlookup key t) as [L|] eqn:Hlk.
